@@ -289,16 +289,25 @@ def r4_copy_coverage(P, rep, ctx):
     src, tg, tp = hfi.params[0], hfi.params[1], hfi.params[2]
     is_ds = h.tests(f"isinstance({src}, H5DatasetLike)")
     rep.check(bool(is_ds), "C05.R4", hfi.qual, "dispatch on dataset vs group", hfi.loc(), construct="kind dispatch", message="h5_copy_from_to lost its dataset/group dispatch")
+    # the attribute-copy helper (if there is one) copies every attribute unless without_attrs
+    ca = hfi.nested.get("copy_attrs")
+    helper_ok = False
+    if ca is not None:
+        c = F(ctx, ca)
+        s_, t_ = ca.params[0], ca.params[1]
+        helper_ok = any(cs == s_ and ct == t_ for i, cs, ct in attr_copies(ctx, c, False)) and bool(c.tests(*WITHOUT))
+    copies = attr_copies(ctx, h, helper_ok)
+    rep.check(bool(copies) and (ca is None or helper_ok), "C05.R4", hfi.qual, "attributes are copied one by one unless without_attrs", hfi.loc(), construct="copy_attrs", message="copy_attrs does not copy every attribute (unless without_attrs)")
     if is_ds:
         ds_create = [i for i, c, b in h.call_sites(f"{tg}.create_dataset({tp}, data={src}[()])")]
-        attrs_of_src = [i for i, c, b in h.call_sites(f"copy_attrs({src}, __n)")]
+        attrs_of_src = [i for i, cs, ct in copies if cs == src]
         ds_attrs = [i for i in attrs_of_src if h.hit_before(i, edges=is_ds)]
-        ok = bool(ds_create) and bool(ds_attrs) and h.all_hit_before(ds_create, edges=is_ds) and all(h.hit_before(h.g.exit, nodes=ds_create + ds_attrs, src_edge=e) for e in is_ds) and all(h.hit_before(a, nodes=ds_create) for a in ds_attrs)
+        ok = bool(ds_create) and bool(ds_attrs) and h.all_hit_before(ds_create, edges=is_ds) and all(h.hit_before(h.g.exit, nodes=ds_create, src_edge=e) for e in is_ds) and all(h.hit_before(h.g.exit, nodes=ds_attrs, edges=h.tests(*WITHOUT), src_edge=e) for e in is_ds) and all(h.hit_before(a, nodes=ds_create) for a in ds_attrs)
         rep.check(ok, "C05.R4", hfi.qual, "dataset branch: full value [()] and attributes", hfi.loc(), construct="dataset branch", message="dataset branch of h5_copy_from_to does not copy `source_node[()]` and the attributes")
         not_ds = h.neg(is_ds)
         gr_create = [i for i, c, b in h.call_sites(f"{tg}.create_group({tp})")]
         gr_attrs = [i for i in attrs_of_src if h.hit_before(i, edges=not_ds)]
-        okg = bool(gr_create) and bool(gr_attrs) and h.all_hit_before(gr_create, edges=not_ds) and all(h.hit_before(h.g.exit, nodes=gr_create, src_edge=e) and h.hit_before(h.g.exit, nodes=gr_attrs, src_edge=e) for e in not_ds)
+        okg = bool(gr_create) and bool(gr_attrs) and h.all_hit_before(gr_create, edges=not_ds) and all(h.hit_before(h.g.exit, nodes=gr_create, src_edge=e) and h.hit_before(h.g.exit, nodes=gr_attrs, edges=h.tests(*WITHOUT), src_edge=e) for e in not_ds)
         # all descendants (unless shallow): listed by _list_children(source, shallow) (or given by the caller), each fed to the child copier
         lister = P.functions.get(f"{O}._list_children")
         lister_ok = False
@@ -310,15 +319,16 @@ def r4_copy_coverage(P, rep, ctx):
             deep = lf.calls(f"{a}.visititems(___)")
             full = [i for i, v in lf.returns() if i not in imm]
             lister_ok = bool(shallow_t) and bool(imm) and bool(deep) and bool(full) and lf.all_hit_before(imm, edges=shallow_t) and lf.all_hit_before(full, nodes=deep) and all(lf.hit_before(lf.g.exit, nodes=imm, src_edge=e) for e in shallow_t)
-            cb = [c.args[0] for _, c, b in lf.call_sites(f"{a}.visititems(__cb)")]
-            lister_ok = lister_ok and all(isinstance(x, ast.Lambda) and len(x.args.args) == 2 and M.match(f"__r.append(({x.args.args[0].arg}, {x.args.args[1].arg}))", x.body) is not None for x in cb)
+            for _, c_, b_ in lf.call_sites(f"{a}.visititems(__cb)"):
+                ps, body = callback_form(lf, c_.args[0])
+                lister_ok = lister_ok and ps is not None and len(ps) == 2 and isinstance(body, ast.AST) and M.match(f"__r.append(({ps[0]}, {ps[1]}))", body) is not None
         listed = h.call_sites(f"_list_children({src}, __sh)")
         sh_ok = bool(listed) and all(h.x(b["__sh"]) in ("kwargs.pop('shallow', False)", "shallow") for _, c, b in listed)
         loops = []
         for n in h.g.nodes:
             if n.kind == "for" and isinstance(n.stmt.target, ast.Tuple) and len(n.stmt.target.elts) == 2 and not any(isinstance(x, (ast.Break, ast.Continue)) for b_ in n.stmt.body for x in ast.walk(b_)):
                 itx = h.x(n.stmt.iter)
-                if itx == "kwargs.pop('_src_children', None)" or "_list_children" in itx or isinstance(n.stmt.iter, ast.Name):
+                if itx == "kwargs.pop('_src_children', None)" or "_list_children" in itx or (isinstance(n.stmt.iter, ast.Name) and ".attrs" not in itx):
                     loops.append(n)
         unit_ok = False
         for n in loops:
@@ -327,30 +337,67 @@ def r4_copy_coverage(P, rep, ctx):
             cc = hfi.nested.get("copy_children")
             if direct and cc is not None:
                 u = F(ctx, cc)
-                unit_ok = _child_unit(u, cc.params[0], cc.params[1], None)
+                unit_ok = _child_unit(u, cc.params[0], cc.params[1], None, attr_copies(ctx, u, helper_ok))
             else:
-                unit_ok = _child_unit(h, nm, ch, n.idx)
+                unit_ok = _child_unit(h, nm, ch, n.idx, copies)
             if unit_ok:
                 break
         ok = okg and lister_ok and sh_ok and bool(loops) and all(h.hit_before(h.g.exit, nodes=[l.idx for l in loops], src_edge=e) for e in not_ds)
         rep.check(ok, "C05.R4", hfi.qual, "group branch: group, attributes and (unless shallow) all descendants", hfi.loc(), construct="group branch", message="group branch of h5_copy_from_to does not create the group, copy its attributes and copy all descendants (immediate children when shallow)")
         rep.check(unit_ok, "C05.R4", hfi.qual, "children: datasets by full value, groups created, attributes copied for both", hfi.loc(), construct="copy_children", message="copy_children does not handle both kinds (dataset value [()], group) and attributes")
-    ca = hfi.nested.get("copy_attrs")
-    ok = False
-    if ca is not None:
-        c = F(ctx, ca)
-        s_, t_ = ca.params[0], ca.params[1]
-        wo = c.tests("without_attrs", "kwargs.pop('without_attrs', False)")
-        loops = [n for n in c.g.nodes if n.kind == "for" and c.x(n.stmt.iter) == f"{s_}.attrs.items()" and isinstance(n.stmt.target, ast.Tuple) and len(n.stmt.target.elts) == 2]
-        if loops and wo:
-            n = loops[0]
-            k, v = norm(n.stmt.target.elts[0]), norm(n.stmt.target.elts[1])
-            st = [b_ for b_ in n.stmt.body if isinstance(b_, ast.Assign) and any(c.x(t) == f"{t_}.attrs[{k}]" for t in b_.targets) and norm(b_.value) == v]
-            ok = bool(st) and not any(isinstance(x, (ast.Break, ast.Continue, ast.If)) for b_ in n.stmt.body for x in ast.walk(b_)) and c.hit_before(c.g.exit, nodes=[n.idx], edges=wo)
-    rep.check(ok, "C05.R4", hfi.qual, "attributes are copied one by one unless without_attrs", hfi.loc(), construct="copy_attrs", message="copy_attrs does not copy every attribute (unless without_attrs)")
 
 
-def _child_unit(u: "F", nm: str, ch: str, loop: int) -> bool:
+def callback_form(f: "F", e: ast.AST):
+    """(parameter names, body expression or statement list) of a callback given as a lambda or as the name of a nested function"""
+    if isinstance(e, ast.Lambda):
+        return [a.arg for a in e.args.args], e.body
+    if isinstance(e, ast.Name):
+        nf = f.fi.nested.get(e.id)
+        if nf is not None:
+            body = [b for b in nf.node.body if not (isinstance(b, ast.Expr) and isinstance(b.value, ast.Constant))]
+            if len(body) == 1 and isinstance(body[0], ast.Return) and body[0].value is not None:
+                return nf.params, body[0].value
+            if len(body) == 1 and isinstance(body[0], ast.Expr):
+                return nf.params, body[0].value
+            return nf.params, body
+    return None, None
+
+
+WITHOUT = ("without_attrs", "kwargs.pop('without_attrs', False)")
+
+
+def attr_copies(ctx, u: "F", helper_ok: bool):
+    """Places where the attributes of one node are copied to another: (node, source text, target text).  Either a call of the
+    (separately verified) nested helper copy_attrs(S, T), or the inline form
+        [if not without_attrs:] for k, v in S.attrs.items(): T.attrs[k] = v
+    which must be guarded by, and only by, the without_attrs switch."""
+    out = []
+    if helper_ok:
+        for i, c, b in u.call_sites("copy_attrs(__s, __t)"):
+            out.append((i, u.x_at(i, b["__s"]), u.x_at(i, b["__t"])))
+    g = u.g
+    wo = u.tests(*WITHOUT)
+    for n in g.nodes:
+        if n.kind != "for" or not (isinstance(n.stmt.target, ast.Tuple) and len(n.stmt.target.elts) == 2):
+            continue
+        m = M.match("__s.attrs.items()", u.xe_at(n.idx, n.stmt.iter))
+        if m is None:
+            continue
+        k, v = norm(n.stmt.target.elts[0]), norm(n.stmt.target.elts[1])
+        sts = [(i, b) for i, val, b in u.stores(f"__t.attrs[{k}]") if norm(val) == v]
+        sts = [(i, b) for i, b in sts if id(g.nodes[i].stmt) in {id(x) for b_ in n.stmt.body for x in ast.walk(b_)}]
+        if not sts or any(isinstance(x, (ast.Break, ast.Continue, ast.If)) for b_ in n.stmt.body for x in ast.walk(b_)):
+            continue
+        if not u.hit_before(n.idx, nodes=[i for i, b in sts], src_edge=(n.idx, "iter")):
+            continue
+        # skipped only (and always) when without_attrs is set
+        if wo and not u.hit_before(n.idx, edges=u.neg(wo)):
+            continue
+        out.append((n.idx, norm(m["__s"]), norm(sts[0][1]["__t"])))
+    return out
+
+
+def _child_unit(u: "F", nm: str, ch: str, loop: int, copies=None) -> bool:
     """Per child (name nm, node ch): dataset -> root[nm] = ch[()], else root.create_group(nm); attributes copied for both."""
     is_ds = u.tests(f"isinstance({ch}, H5DatasetLike)")
     if not is_ds:
@@ -358,11 +405,17 @@ def _child_unit(u: "F", nm: str, ch: str, loop: int) -> bool:
     val = [(i, b) for i, v, b in u.stores(f"__r[{nm}]") if u.x(v) == f"{ch}[()]"] + [(i, b) for i, c, b in u.call_sites(f"__r.create_dataset({nm}, data={ch}[()])")]
     grp = [(i, b) for i, c, b in u.call_sites(f"__r.create_group({nm})")]
     att = [(i, b) for i, c, b in u.call_sites(f"copy_attrs({ch}, __r[{nm}])")]
+    roots_extra = set()
+    if not att and copies:
+        for i, s_, t_ in copies:
+            if s_ == ch and t_.endswith(f"[{nm}]"):
+                att.append((i, {}))
+                roots_extra.add(u.x(M.pat(t_[: -len(f"[{nm}]")])))
     if not (val and grp and att):
         return False
-    roots = {u.x(b["__r"]) for i, b in val + grp + att}
+    roots = {u.x(b["__r"]) for i, b in val + grp + att if "__r" in b} | roots_extra
     end = loop if loop is not None else u.g.exit
     vi, gi, ai = [i for i, b in val], [i for i, b in grp], [i for i, b in att]
     return (len(roots) == 1 and u.all_hit_before(vi, edges=is_ds) and u.all_hit_before(gi, edges=u.neg(is_ds))
             and all(u.hit_before(end, nodes=vi, src_edge=e) for e in is_ds) and all(u.hit_before(end, nodes=gi, src_edge=e) for e in u.neg(is_ds))
-            and all(u.hit_before(end, nodes=ai, src_edge=e) for e in is_ds + u.neg(is_ds)) and all(u.hit_before(a, nodes=vi + gi, src=(loop if loop is not None else None)) for a in ai))
+            and all(u.hit_before(end, nodes=ai, edges=u.tests(*WITHOUT), src_edge=e) for e in is_ds + u.neg(is_ds)) and all(u.hit_before(a, nodes=vi + gi, src=(loop if loop is not None else None)) for a in ai))
